@@ -30,6 +30,7 @@ import ClarabelProofs.Lemmas.UpdateFreshEquiv
 import ClarabelProofs.Lemmas.UpdateGuard
 import ClarabelProofs.Lemmas.UpdateReject
 import ClarabelProofs.Lemmas.UpdateSolverFinal
+import ClarabelProofs.Lemmas.UpdateSolverTotal
 import Mathlib.Tactic.IntervalCases
 
 namespace Clarabel.C08
@@ -1091,6 +1092,107 @@ theorem full_update_then_solve_eq_rebuilt_any (hbeq : ((0 : α) == 0) = true) {P
         R.st.data = S'.st.data ∧ RelM SolveObs (S'.solve st) (R.solve st) :=
   run_then_solve_eq_rebuiltWith hbeq (base_of_new hin hn hperm h) hnp hrun
 
+/-- [S] **every history returns** (`Solver.runU_total`, C08 ∘ C04).  On well-formed user input with zero /
+nonnegative / second-order cones, `n ≥ 1`, `PermForU` (the ordering is a permutation of the KKT
+dimension), `PivotOK` and `FmaxOK` — exactly the hypotheses of C04's `Solver.run_total`, nothing about
+the update ARGUMENTS: the model panics on ill-formed problem DATA only (`dataWf`, the index guard of
+`updGuard`), and `dataWf` holds on every object of a history (`DFrame`); ill-formed arguments are answered
+with a `DataUpdateError` — `DefaultSolver::new` returns an object `S0`, and for EVERY finite list `ops` of
+`update_P / update_q / update_A / update_b / update_data` (whole vectors, matrices, `(index,value)` pairs;
+ACCEPTED or REJECTED) and `solve()` calls, the history returns: `Solver.runU st S0 ops = .ok (S', outs)`.
+The object `S'` it ends in satisfies C04's invariant `SolverInvQ` — so the next `solve()` returns too —
+and C08's `UInv` (frozen shapes, `KSync`).  The invariant of `solve()` is kept by every update because it
+constrains patterns, dimensions, lengths and the structure of the linear-solver object only
+(`SolverInvQ.of_uframe`), and an update — also a rejected partial one — changes VALUES only
+(`updateP_uframe` … `updateB_uframe`). -/
+theorem full_history_total {P : Csc α} {q : Array α} {A : Csc α} {b : Array α}
+    {cones : List (ConeT α)} {st : Solver.Settings α} {perm : Array Nat} (hin : InputOK P q A b cones)
+    (hm : ∀ c ∈ cones, Solver.ConeT.modelled c) (hn : 0 < P.n) (hperm : PermForU P q A b cones st perm)
+    (hpiv : Solver.PivotOK st.lin) (hf : Solver.FmaxOK α) :
+    ∃ S0, Solver.new P q A b cones st perm = .ok S0 ∧
+      ∀ ops : List (UOp α), ∃ S' outs, Solver.runU st S0 ops = .ok (S', outs) ∧
+        (∃ r, S'.solve st = .ok r) ∧ Solver.SolverInvQ S' ∧ ∃ pk ak, UInv st S0 S' pk ak := by
+  obtain ⟨S0, h, hall⟩ := Solver.runU_total hin hm hn hperm hpiv hf
+  refine ⟨S0, h, fun ops => ?_⟩
+  obtain ⟨S', outs, e, hI, hU⟩ := hall ops
+  obtain ⟨r, hr, _⟩ := Solver.solve_ok_qdldl hf st hI
+  exact ⟨S', outs, e, ⟨r, hr⟩, hI, hU⟩
+
+/-- [S] **one more operation after any history returns**: `full_update_total` without the hypothesis
+that the history returned, and with `solve()` included. -/
+theorem full_update_total' {P : Csc α} {q : Array α} {A : Csc α} {b : Array α}
+    {cones : List (ConeT α)} {st : Solver.Settings α} {perm : Array Nat} (hin : InputOK P q A b cones)
+    (hm : ∀ c ∈ cones, Solver.ConeT.modelled c) (hn : 0 < P.n) (hperm : PermForU P q A b cones st perm)
+    (hpiv : Solver.PivotOK st.lin) (hf : Solver.FmaxOK α) :
+    ∃ S0, Solver.new P q A b cones st perm = .ok S0 ∧
+      ∀ (ops : List (UOp α)) (op : UOp α), ∃ S outs, Solver.runU st S0 ops = .ok (S, outs) ∧
+        ∃ S' o, S.stepU st op = .ok (S', o) := by
+  obtain ⟨S0, h, hI⟩ := Solver.solverNew_ok_of_modelled hin hm hn hperm hpiv
+  have hb := base_of_new hin hn hperm h
+  refine ⟨S0, h, fun ops op => ?_⟩
+  obtain ⟨S, outs, e, hS⟩ := Solver.runU_total_of_inv hf hb ops S0 ⟨⟨_, _, (UInv.init hb).1⟩, hI⟩
+  obtain ⟨S', o, e', _⟩ := Solver.stepU_total hf hb hS op
+  exact ⟨S, outs, e, S', o, e'⟩
+
+/-- [S] **`full_update_then_solve_total` without the hypothesis that the history returned.**  Under the
+hypotheses of `full_history_total`: `new` returns `S0`, and for EVERY history `ops` there ARE the updated
+object `S'` and the outputs `outs` with `Solver.runU st S0 ops = .ok (S', outs)`; if no presolver is
+recorded and every update of the history was accepted or in whole form (`RunFine ops outs` — a statement
+about the outputs that were produced, no longer about whether they were), the data of `S'` is in the frame
+of the constructed data, the rebuilt object `R` exists with `R.data = S'.data`, BOTH `S'.solve` and
+`R.solve` return, and their results are observably equal (`SolveObs`). -/
+theorem full_update_then_solve_total' (hbeq : ((0 : α) == 0) = true) {P : Csc α} {q : Array α}
+    {A : Csc α} {b : Array α} {cones : List (ConeT α)} {st : Solver.Settings α} {perm : Array Nat}
+    (hin : InputOK P q A b cones) (hm : ∀ c ∈ cones, Solver.ConeT.modelled c) (hn : 0 < P.n)
+    (hperm : PermForU P q A b cones st perm) (hpiv : Solver.PivotOK st.lin) (hf : Solver.FmaxOK α) :
+    ∃ S0, Solver.new P q A b cones st perm = .ok S0 ∧
+      ∀ ops : List (UOp α), ∃ S' outs, Solver.runU st S0 ops = .ok (S', outs) ∧
+        (S0.st.data.presolver = none → RunFine ops outs →
+          DFrame S0.st.data S'.st.data ∧
+          ∃ R, Solver.rebuilt S'.st.data st perm (Unscale.Solution.new S'.st.data.n S'.st.data.m) = .ok R ∧
+            R.st.data = S'.st.data ∧
+            ∃ r r', S'.solve st = .ok r ∧ R.solve st = .ok r' ∧ SolveObs r r') := by
+  obtain ⟨S0, h, hall⟩ := full_history_total hin hm hn hperm hpiv hf
+  refine ⟨S0, h, fun ops => ?_⟩
+  obtain ⟨S', outs, e, ⟨r, hr⟩, _, _⟩ := hall ops
+  refine ⟨S', outs, e, fun hnp hfine => ?_⟩
+  obtain ⟨hD, R, hR, hRd, hrel⟩ := full_update_then_solve_eq_rebuilt hbeq hin hn hperm h hnp e hfine
+  refine ⟨hD, R, hR, hRd, r, ?_⟩
+  rw [hr] at hrel
+  cases hR' : R.solve st with
+  | error e' => rw [hR'] at hrel; exact hrel.elim
+  | ok r' => rw [hR'] at hrel; exact ⟨r', hr, rfl, hrel⟩
+
+/-- [S] **any history, rejected partial updates included, with no hypothesis that anything returned.**
+For EVERY history `ops` on the object `new` returns (hypotheses of `full_history_total`, no presolver
+recorded) the history returns, and the next `solve()` on the updated object RETURNS and is observably the
+`solve()` — which returns as well — of the object built from the final data with the KKT system assembled
+from the matrices `pk`, `ak` the KKT copy was last synchronised with (`Solver.rebuiltWith`; `pk`, `ak` are
+the current `P̂`, `Â` when `RunFine`, the matrices of the last ACCEPTED `update_P` / `update_A` after a
+rejected `(index,value)` update). -/
+theorem full_update_then_solve_any_history (hbeq : ((0 : α) == 0) = true) {P : Csc α} {q : Array α}
+    {A : Csc α} {b : Array α} {cones : List (ConeT α)} {st : Solver.Settings α} {perm : Array Nat}
+    (hin : InputOK P q A b cones) (hm : ∀ c ∈ cones, Solver.ConeT.modelled c) (hn : 0 < P.n)
+    (hperm : PermForU P q A b cones st perm) (hpiv : Solver.PivotOK st.lin) (hf : Solver.FmaxOK α) :
+    ∃ S0, Solver.new P q A b cones st perm = .ok S0 ∧
+      (S0.st.data.presolver = none →
+        ∀ ops : List (UOp α), ∃ S' outs, Solver.runU st S0 ops = .ok (S', outs) ∧
+          ∃ pk ak, UInv st S0 S' pk ak ∧ (RunFine ops outs → Consistent S' pk ak) ∧
+            ∃ R, Solver.rebuiltWith S'.st.data (dataWith S'.st.data pk ak) st perm
+                (Unscale.Solution.new S'.st.data.n S'.st.data.m) = .ok R ∧
+              R.st.data = S'.st.data ∧
+              ∃ r r', S'.solve st = .ok r ∧ R.solve st = .ok r' ∧ SolveObs r r') := by
+  obtain ⟨S0, h, hall⟩ := full_history_total hin hm hn hperm hpiv hf
+  refine ⟨S0, h, fun hnp ops => ?_⟩
+  obtain ⟨S', outs, e, ⟨r, hr⟩, _, _⟩ := hall ops
+  obtain ⟨pk, ak, hU, hc, R, hR, hRd, hrel⟩ :=
+    full_update_then_solve_eq_rebuilt_any hbeq hin hn hperm h hnp e
+  refine ⟨S', outs, e, pk, ak, hU, hc, R, hR, hRd, r, ?_⟩
+  rw [hr] at hrel
+  cases hR' : R.solve st with
+  | error e' => rw [hR'] at hrel; exact hrel.elim
+  | ok r' => rw [hR'] at hrel; exact ⟨r', hr, rfl, hrel⟩
+
 /-- [S] **`solve()` as an operation of a history is `solve()`.**  Until round 8 the shared model
 `Solver.solve` left the norm caches of the data unchanged — the real `DefaultInfo::update` fills them at
 every pass — and the history model used `solveU := solve; fillNorms`.  Now `Solver.solve` itself returns
@@ -1298,5 +1400,69 @@ example (d : ProblemData Int) (hq : d.normq = none) (hb : d.normb = none) :
   ⟨Or.inl hq, Or.inl hb⟩
 
 end examples_round7
+
+
+/-! non-vacuity of the round-9 totality theorems (`full_history_total`, `full_update_total'`,
+`full_update_then_solve_total'`, `full_update_then_solve_any_history`) -/
+section examples_round9
+open Clarabel.Solver
+
+/-- the history of the `ℝ` example: `solve()`, a whole-vector `update_q([2])`, a partial
+`update_A([(0, 3), (5, 4)])` whose second index is out of range, `solve()` -/
+noncomputable def exHistoryR : List (UOp ℝ) :=
+  [.solve, .updateQ (.slice #[2]), .updateA (.pairs #[0, 5] #[3, 4]), .solve]
+
+/-- over `ℝ`, on `min x s.t. x + s = 1, s ≥ 0` with the DEFAULT settings (equilibration, static and
+dynamic regularisation, iterative refinement on), every hypothesis of the four theorems holds
+(`FullExample.inputOK`, `modelled`, `permFor`, `stR_pivotOK`, `fmaxOK_real`, `0 == 0`), and the conclusion
+at `exHistoryR`: `new` returns, the history — two solves and two updates — returns, the next `solve()`
+returns, every further operation returns -/
+example : (((0 : ℝ) == 0) = true) ∧
+    ∃ S0 S' outs r, Solver.new FullExample.P #[1] FullExample.A #[1] ([.nonneg 1] : List (ConeT ℝ))
+      FullExample.stR #[0, 1] = .ok S0 ∧
+    Solver.runU FullExample.stR S0 exHistoryR = .ok (S', outs) ∧ S'.solve FullExample.stR = .ok r ∧
+    ∃ S'' o, S'.stepU FullExample.stR (.updateP (.pairs #[7] #[1])) = .ok (S'', o) := by
+  refine ⟨by simp, ?_⟩
+  obtain ⟨S0, h, hall⟩ := full_history_total FullExample.inputOK FullExample.modelled
+    (by decide) (FullExample.permFor FullExample.stR rfl) FullExample.stR_pivotOK fmaxOK_real
+  obtain ⟨S0', h', hall'⟩ := full_update_total' FullExample.inputOK FullExample.modelled
+    (by decide) (FullExample.permFor FullExample.stR rfl) FullExample.stR_pivotOK fmaxOK_real
+  rw [h] at h'
+  cases h'
+  obtain ⟨S', outs, e, ⟨r, hr⟩, _, _⟩ := hall exHistoryR
+  obtain ⟨S1, outs1, e1, S'', o, e2⟩ := hall' exHistoryR (.updateP (.pairs #[7] #[1]))
+  rw [e] at e1
+  cases e1
+  exact ⟨S0, S', outs, r, h, e, hr, S'', o, e2⟩
+
+attribute [local instance] Example.intFloatLike in
+/-- at `Int` the same history is RUN by the kernel (`Example.histRun_codes`): on the object `new` builds
+for the example problem — the hypotheses of `full_update_then_solve_any_history` hold: `uxInputOK`,
+`uxPermFor`, `exPivotOK`, `exFmaxOK`, no presolver — the history `solve(); update_q([2]);
+update_A([(0,3),(5,4)]); solve()` returns with outputs: solved in 2 passes, ACCEPTED, REJECTED (`data.A =
+[3]`, KKT copy still `1`: `RunFine` fails), solved in 3 passes; and by the theorem the NEXT `solve()`
+returns and is observably the solve of the object rebuilt with the stale KKT matrices `pk`, `ak` -/
+example : ∃ S0 S' outs, Example.newSolver 3 = .ok S0 ∧
+    Solver.runU (Example.st 3) S0 Example.histOps = .ok (S', outs) ∧
+    outs.map Example.outCode = [4, 0, 1, 5] ∧ S'.st.data.A.nzval = #[3] ∧
+    S'.st.kktsystem.kktsolver.KKT.nzval = #[0, 1, 0] ∧
+    ∃ pk ak R r r', UInv (Example.st 3) S0 S' pk ak ∧
+      Solver.rebuiltWith S'.st.data (dataWith S'.st.data pk ak) (Example.st 3) #[0, 1]
+        (Unscale.Solution.new S'.st.data.n S'.st.data.m) = .ok R ∧
+      S'.solve (Example.st 3) = .ok r ∧ R.solve (Example.st 3) = .ok r' ∧ SolveObs r r' := by
+  have hm : ∀ c ∈ ([.nonneg 1] : List (ConeT Int)), Solver.ConeT.modelled c := by
+    intro c hc
+    simp only [List.mem_cons, List.not_mem_nil, or_false] at hc
+    subst hc; trivial
+  obtain ⟨S0, h, hall⟩ := full_update_then_solve_any_history (by decide) Example.uxInputOK hm (by decide)
+    Example.uxPermFor (Example.exPivotOK 3) Example.exFmaxOK
+  obtain ⟨S', outs, e, pk, ak, hU, _, R, hR, _, r, r', hr, hr', hobs⟩ :=
+    hall (Example.exNoPresolver h) Example.histOps
+  have hk := Example.histRun_codes
+  rw [Example.histRun_eq h e] at hk
+  simp only [Except.toOption, Option.map_some, Option.some.injEq, Prod.mk.injEq] at hk
+  exact ⟨S0, S', outs, h, e, hk.1, hk.2.1, hk.2.2.2, pk, ak, R, r, r', hU, hR, hr, hr', hobs⟩
+
+end examples_round9
 
 end Clarabel.C08
